@@ -1,7 +1,7 @@
 CONSTANTS
   MaxCalls = 5
-  HeomResets = FALSE
-  NefRecomputes = TRUE
+  HeomResets = TRUE
+  NefRecomputes = FALSE
   NrefPersists = FALSE
 SPECIFICATION Spec
 CONSTRAINT Bounded
